@@ -15,9 +15,9 @@ for d in sorted(glob.glob('/verif/benign/*/')):
         continue
     r = sh(f'git -C /repo apply --whitespace=nowarn {d}patch.diff')
     if r.returncode != 0:
-        print(bid, 'PATCH DOES NOT APPLY'); sh('git -C /repo checkout -- .'); continue
+        print(bid, 'PATCH DOES NOT APPLY'); sh('git -C /repo checkout -- . && git -C /repo clean -fdq'); continue
     out = sh('./check all quick').stdout
-    sh('git -C /repo checkout -- .')
+    sh('git -C /repo checkout -- . && git -C /repo clean -fdq')
     keys = sorted(set(re.findall(r'^\s+where\s+\S+\s+\[(.*)\]', out, re.M)))
     und = sorted(set(re.findall(r'^UNDECIDED property=\S+ \[(.*?)\]', out, re.M)))
     json.dump({'id': bid, 'false_alarms': keys, 'undecided': und}, open(d + 'status.json', 'w'), indent=1)
